@@ -354,6 +354,11 @@ def accuracy_failures(n, seed, limit=3):
 
 
 def accuracy_bounded(chk):
+    # the angle of the beams GIVEN: also when a beam object was changed in place since the previous call (no answer remembered by reference)
+    from contracts import C09
+    stale = [f for f in C09.stale_result_failures() if f['function'] in ('two_theta', 'L2', 'straight_scattered_beam')]
+    chk.bounded_check('beams-changed-in-place-between-calls', 'real two_theta / L2 / straight_scattered_beam: call, change a beam in place, call again',
+                      '3 kernels x (stale answer, same result object, shared storage)', 3, stale)
     n = 1500 if chk.tier == 'quick' else 20000
     fails, worst = accuracy_failures(n, 1234 + chk.seed)
     chk.bounded_check('two_theta-absolute-accuracy', 'real kernel vs mpmath (60 digits)',
@@ -363,6 +368,10 @@ def accuracy_bounded(chk):
 
 def replay(rec):
     name = rec['obligation']
+    if '/bounded/beams-changed-in-place' in name:
+        from contracts import C09
+        stale = C09.stale_result_failures()
+        return {'reproduced': bool(stale), 'cases': stale[:2]}
     if '/bounded/' in name:
         f = rec.get('meta', {}).get('replay') or rec.get('model')
         if 'array_of_pairs' in f:       # an element of a per-pixel array: re-run the grid it came from
